@@ -68,7 +68,10 @@ def stem (name : Bytes) : Bytes :=
   match (name.reverse.dropWhile (· != 46)) with
   | [] => name                       -- no dot
   | _ :: revStem => if revStem.isEmpty then name else revStem.reverse   -- ".hidden" keeps its name
-def tmpName (name : Bytes) : Bytes := stem name ++ b!".PID.renamify.tmp"
+/-- the temp sibling of a file: `<stem>.<pid>.renamify.tmp` (placeholder `PID`; `ExecFlags.tempNamePerPid`), or the
+    fixed `<stem>.renamify.tmp` -/
+def tmpName (name : Bytes) : Bytes :=
+  stem name ++ (if ExecFlags.tempNamePerPid then b!".PID.renamify.tmp" else b!".renamify.tmp")
 def tmpPath (f : Path) : Path :=
   match f.getLast? with
   | none => f
@@ -450,22 +453,34 @@ def rollbackM (cfg : Cfg) (perf : List (Path × Path)) : M Unit := do
   if bad then throw .rollbackErr else logM cfg
 
 /-- write `c'` to the temp file next to `f`, give it mode `m`, rename it over `f` -/
-def replaceFile (f : Path) (c' : Bytes) (m : Nat) : M Unit := do
-  doOp (.openw (tmpPath f) true false)
+def replaceFileX (excl : Bool) (f : Path) (c' : Bytes) (m : Nat) : M Unit := do
+  -- `excl = false`: `File::create` (O_CREAT|O_TRUNC: an existing file at the temp name is simply overwritten);
+  -- `excl = true`: `create_new` (O_EXCL: an existing file makes the open fail with EEXIST)
+  doOp (.openw (tmpPath f) true excl)
   writeAll (tmpPath f) c'
   doOp (.chmod (tmpPath f) m)
   doOp (.rename (tmpPath f) f false false)
 
+def replaceFile (f : Path) (c' : Bytes) (m : Nat) : M Unit := replaceFileX ExecFlags.tempOpenExclusive f c' m
+
+/-- would a later content edit of one of `files` fail only because of a temp file that an earlier, killed process left
+    behind?  With per-pid names the leftover has another name; with a truncating create it is overwritten. -/
+def leftoverBlocks (files : List Path) (t : Tree) : Bool :=
+  ExecFlags.tempOpenExclusive && !ExecFlags.tempNamePerPid && files.any (fun f => exists_ t (tmpPath f))
+
 /-- … and, in the variant `clean = true`, remove the temp file again when one of these steps fails -/
-def replaceFileF (clean : Bool) (f : Path) (c' : Bytes) (m : Nat) : M Unit :=
+def replaceFileFX (excl clean : Bool) (f : Path) (c' : Bytes) (m : Nat) : M Unit :=
   if clean then do
-    let r ← tryCatch (replaceFile f c' m)
+    let r ← tryCatch (replaceFileX excl f c' m)
     match r with
     | none => pure ()
     | some e => do
       ignoreErr (doOp (.unlink (tmpPath f)))
       throw e
-  else replaceFile f c' m
+  else replaceFileX excl f c' m
+
+def replaceFileF (clean : Bool) (f : Path) (c' : Bytes) (m : Nat) : M Unit :=
+  replaceFileFX ExecFlags.tempOpenExclusive clean f c' m
 
 /-- `apply_content_edits_with_content` for one file whose content `c` and mode `m` have been read -/
 def editOneF (clean : Bool) (cfg : Cfg) (hs : List Hunk) (f : Path) (c : Bytes) (m : Nat) : M Unit := do
@@ -776,7 +791,7 @@ def patchOneF (viaTemp cleans : Bool) (f : Path) (c : Bytes) : M Unit := do
   match lookup t f with
   | some (.file cur m) =>
     if !Utf8.valid cur then throw .unreadable
-    else if viaTemp then replaceFileF cleans f c m
+    else if viaTemp then replaceFileFX false cleans f c m      -- `fs::write(&temp_path, …)`: always a truncating create
     else do
       doOp (.openw f true false)
       writeAll f c
